@@ -142,15 +142,17 @@ type drv struct {
 var goroutineHdr = regexp.MustCompile(`(?m)^goroutine \d+ \[([^\]]*)\]:$`)
 
 // consumerParked reports whether the goroutine running SendToSinkForever is parked in sync.Cond.Wait.
+var stackBuf = make([]byte, 1<<16)
+
 func consumerParked() bool {
-	buf := make([]byte, 1<<16)
+	var buf []byte
 	for {
-		n := runtime.Stack(buf, true)
-		if n < len(buf) {
-			buf = buf[:n]
+		n := runtime.Stack(stackBuf, true)
+		if n < len(stackBuf) {
+			buf = stackBuf[:n]
 			break
 		}
-		buf = make([]byte, 2*len(buf))
+		stackBuf = make([]byte, 2*len(stackBuf))
 	}
 	for _, blk := range strings.Split(string(buf), "\n\n") {
 		if !strings.Contains(blk, "dedupebuffer.(*DedupeBuffer).SendToSinkForever") {
@@ -204,10 +206,10 @@ func (d *drv) settle() {
 			fatal("consumer goroutine reached neither the gate nor cond.Wait within %v (trace %d)", d.bound, d.log.T)
 		}
 		spins++
-		if spins < 50 {
+		if spins < 5 {
 			runtime.Gosched()
 		} else {
-			time.Sleep(50 * time.Microsecond)
+			time.Sleep(30 * time.Microsecond)
 		}
 	}
 }
